@@ -361,6 +361,14 @@ def _mode_t(ctx, direction):
         entries.setdefault(ctx.current.name, []).append(ctx.now)
         return orig_wait(timeout)
     cond.wait = wait_logged
+
+    def unhook():
+        # (a changed library may share this Condition between maps and so between runs: never leave the hook on it)
+        try:
+            del cond.wait
+        except AttributeError:
+            pass
+    ctx.cleanup.append(unhook)
     nframes = ctx.choice(5, "nframes")
     gaps = [ctx.choice(6, "gap") for _ in range(nframes)]
     fine = [ctx.choice(200, "gapfine") * 5e-6 for _ in range(nframes)]
